@@ -139,3 +139,13 @@ def model_check(pid, tier, tlc, work, spec, log):
 
 
 SPECIAL = {}
+
+LEVEL_TEXT = ("Model checking with conformance: the property is an operator of Props.tla; TLC checks it exhaustively on the "
+              "Election.tla model for small constants (design level), and every schedule of the scenario families is executed on "
+              "the real kvElection (gated reference store, virtual time) and its recorded trace is validated step by step against "
+              "the same operators by TLC (MonitorTrace.tla). A verdict is only ever taken from what the real code did.")
+LEVEL_NOTE = ("trusted: TLC, the Go runtime's synctest bubble, the harness' reference store (its NATS fidelity is itself checked by C14), "
+              "the trace being complete (every store operation, metrics callback and user callback passes through the harness); "
+              "bounded: scenario families and model constants are finite samples of the quantifier")
+SPECIAL_INFO = {}
+NOT_YET = {}
